@@ -206,7 +206,7 @@ func (p c15) Run(c *core.Ctx, idx int) {
 		o := dp.DefaultGen()
 		o.Choices = idx%3 == 0 || idx%6 == 1 // with the augmenting module half of the time: cases and case members from another module
 		o.Aug = idx%3 == 1
-		o.AugSub = idx%6 == 1 // the augments written in a submodule of the augmenting module: still that module's nodes
+		o.AugSub = idx%6 == 1            // the augments written in a submodule of the augmenting module: still that module's nodes
 		o.Sub = idx%3 == 2 || idx%6 == 4 // some top-level nodes written in a submodule: they are the module's own in data
 		o.Presence = true
 		o.MaxDepth = 2 + r.Intn(3)
